@@ -485,3 +485,19 @@ mod tests {
 		assert!(!r.is_source_eof());
 	}
 }
+
+#[cfg(feature = "verif")]
+impl Handle<'_> {
+	/// Verification hook: `(captured_len, cursor_pos, source_eof)` of the
+	/// capture reader, or `None` for slice handles.
+	pub(crate) fn verif_state(&self) -> Option<(usize, u64, bool)> {
+		match &self.0 {
+			Source::Slice(_) => None,
+			Source::Reader(r) => Some((
+				r.0.prefix.get_ref().len(),
+				r.0.prefix.position(),
+				r.0.source_eof,
+			)),
+		}
+	}
+}
